@@ -381,7 +381,9 @@ func c04Domain(t reflect.Type, idx string) (v interface{}, ok bool) {
 		}
 		return i == 1, true
 	case reflect.Interface:
-		return []interface{}{0, 1, "a", C04S{A: 1, B: "b"}}[i], true
+		// 3 is itself a []interface{} whose members are the values 0 and 1: as ONE argument (or one variadic element) it
+		// is a value like any other and must never be spread into its members
+		return []interface{}{0, 1, "a", []interface{}{0, 1}}[i], true
 	case reflect.Ptr:
 		if i > 1 {
 			return nil, false
